@@ -318,6 +318,10 @@ def generator_rows(case, ctx):
 # ------------------------------------------------------------------------------------------------
 # (b) rejection: typed single mutations of valid constructor arguments
 
+MUST_RAISE = {"bad_string", "unknown_spec", "param_drop", "param_extra", "fparam_drop", "fparam_extra", "param_a0_nonpositive",
+              "fparam_a0_nonpositive", "dot_index_high", "dot_index_low"}
+
+
 def _mut_targets(cls, args):
     """All (kind, path) mutations applicable to this argument list."""
     names = [n for n, _ in args]
@@ -391,6 +395,11 @@ def _apply_mutation(cls, args, kind, i, pick):
                   "fparam_str_elem", "param_nan"):
         if kind.startswith("f"):
             j = pick % len(v)
+            # the parameter count differs by spec (se_erf_rinv carries one more number): when that spec is present, half of
+            # the count mutations go to its parameter set
+            specs = dict((k, x) for k, x in a).get("feat_specs_j" if n.endswith("_j") else "feat_specs")
+            if kind in ("fparam_drop", "fparam_extra") and specs and "se_erf_rinv" in specs and (pick // 7) % 2 == 0:
+                j = list(specs).index("se_erf_rinv")
             p = list(v[j])
         else:
             p = list(v)
@@ -509,6 +518,10 @@ def rejection(case, ctx):
         ctx.event("rejected_with=" + type(e).__name__)
         return
     ctx.event("accepted:" + kind)
+    # the mutations the property names one by one (unknown spec / mode strings, wrong parameter counts, non-positive
+    # exponents, bad index pairs) must be rejected; for the remaining kinds acceptance is allowed if the object is consistent
+    if kind in MUST_RAISE:
+        ctx.check(False, ("accepted_invalid", "must_raise", kind, cls), mutated=repr(margs[case_arg])[:200], argument=argname)
     if "lenient_counts" in EXCLUDE_KNOWN and (kind in ("count_negative", "count_too_large", "nums_negative") or argname == "ld_dots"):
         ctx.event("excluded_known:lenient_counts")
         return
